@@ -237,8 +237,29 @@ def r14d(run):
                 if o.kind == "expr" and isinstance(o.node, ast.BinOp) and isinstance(o.node.op, ast.Mult) \
                         and SIGN in (unparse(o.node.left), unparse(o.node.right)):
                     whole = o.node.right if unparse(o.node.left) == SIGN else o.node.left
+        def sign_in_every_component(call) -> bool:
+            # `t(**{k: sign * float(v) for k, v in kw.items() ...})`: the sign multiplies every component
+            if not (isinstance(call, ast.Call) and not call.args and len(call.keywords) == 1 and call.keywords[0].arg is None):
+                return False
+            sp = call.keywords[0].value
+            comps = [sp] if isinstance(sp, ast.DictComp) else []
+            if isinstance(sp, ast.Name):
+                comps = [o.node for o in prov(fa).of_name(r, sp.id) if isinstance(o.node, ast.DictComp)]
+                if len(comps) != len(prov(fa).of_name(r, sp.id)):
+                    return False
+            return bool(comps) and all(
+                isinstance(c.value, ast.BinOp) and isinstance(c.value.op, ast.Mult)
+                and SIGN in (unparse(c.value.left), unparse(c.value.right)) for c in comps)
+        distributed = False
+        if whole is None:
+            cand = v
+            if isinstance(cand, ast.Name):
+                os_ = [o for o in prov(fa).of_name(r, cand.id) if o.kind == "call"]
+                cand = os_[0].node if len(os_) == 1 else cand
+            if sign_in_every_component(cand):
+                whole, distributed = cand, True
         ok = False
-        why = "the returned value is not `sign * <duration>`"
+        why = "the returned value is not `sign * <duration>` (nor a duration whose every component carries the sign)"
         if whole is not None:
             if isinstance(whole, ast.Name):
                 os_ = [o for o in prov(fa).of_name(r, whole.id) if o.kind == "call"]
